@@ -400,6 +400,9 @@ class tenmat_init(Contract):
         ts, rd, cd, data = a["tshape"], a["rdims"], a["cdims"], a["data"]
         rrow = N.spec_row(S.ctx, rd.shape[0], lambda x: T.tz(ts.fn(rd.fn(x))))
         crow = N.spec_row(S.ctx, cd.shape[0], lambda x: T.tz(ts.fn(cd.fn(x))))
+        # the empty product is 1 (ground instances for every shape row of this path)
+        for r_ in list(S.ctx.ghosts.get("row", [])):
+            S.ctx.assume(z3.Implies(N.rlen(r_) == 0, N.PRODR(r_) == 1), trusted="lemma: the empty product is 1")
         return rrow, crow, N.seq_as_row(S.ctx, ts), N.seq_as_row(S.ctx, (data.shape[0], data.shape[1]))
 
     def raises_when(self, S, a):
